@@ -117,6 +117,22 @@ def check(R, F):
                     pairs.append((m.group(1), m.group(2)))
                     wide_tests.append(b)
         pairs = sorted(pairs)
+    any_tests = []
+    if not pairs:
+        # equivalent form: `[r1, r2, r3].iter().any(|r| r.checked_mul(window).is_none())`
+        for b, t in newp.calls():
+            if not callee_name(t).endswith('Iterator>::any') or len(t['args']) != 2:
+                continue
+            m = re.match(r"^slice::iter\(cast\(array\{(arg\d),(arg\d),(arg\d)\}\)\)$", paths.show_operand(newp, t['args'][0]))
+            m2 = re.match(r'^new::(\{closure#\d+\})\{(arg\d)\}$', paths.show_operand(newp, t['args'][1]))
+            c = F.fns.get(newp.gpath + '::' + m2.group(1)) if m2 else None
+            if m and c is not None:
+                cc = [(paths.show_operand(c, tt['args'][0]), paths.show_operand(c, tt['args'][1])) for bb, tt in c.calls() if callee_name(tt).endswith('checked_mul')]
+                rets = [paths.show_operand(c, st['rv']['op']) for bl in c.blocks for st in bl['stmts'] if st['k'] == 'assign' and st['lhs']['l'] == 0 and st['rv']['k'] == 'use']
+                isn = [tt for bb, tt in c.calls() if callee_name(tt).endswith('Option::<T>::is_none') and tt['dest']['l'] == 0] or [1 for r_ in rets if r_.startswith('Option::is_none(num::checked_mul(')]
+                if cc in ([('arg2', 'arg1.0')], [('arg1.0', 'arg2')]) and isn:
+                    pairs = sorted((a, m2.group(2)) for a in m.groups())
+                    any_tests.append(b)
     R.require(pairs == [('arg1', 'arg4'), ('arg2', 'arg4'), ('arg3', 'arg4')], 'rate-window', 'server::rrl::RrlParams::new|checked-products', newp.where(),
               'each rate x window is admitted under checked_mul', 'RrlParams::new checks products %s, expected each of the three rates times the window' % pairs)
     okb = [b for b, blk in enumerate(newp.blocks) for st in blk['stmts'] if st['k'] == 'assign' and st['rv']['k'] == 'agg' and st['rv']['def'] == 'server::rrl::RrlParams']
@@ -132,6 +148,8 @@ def check(R, F):
             ok = ok and any('checked_mul' in x for x in g)
         if wide_tests:
             ok = ok and all(any(x.startswith('Gt(Mul(') and x.endswith(' in [0]') for x in g) for _ in wide_tests)
+        if any_tests:
+            ok = ok and any(re.match(r"^Iter<'a, T>::any\(.*\) in \[0\]$", x) for x in g)
     R.require(ok, 'rate-window', 'server::rrl::RrlParams::new|constructed-after-checks', newp.where(), 'the parameters are built only when no product overflowed', 'RrlParams is constructed without the checked_mul tests dominating it')
     wr = effects.writers_of(F, 'server::rrl::RrlParams')
     for f in ('noerror_rate', 'nxdomain_rate', 'error_rate', 'window'):
